@@ -59,6 +59,7 @@ type monState struct {
 	undefinedAt  map[string]int  // pipeline -> last step at which a reload left it undefined
 	lastSeen     map[string]*JobSnap // last API report of every job ever seen
 	saveOps      map[int]*saveOpInfo // client -> explicit save in flight (C12 r6c)
+	listOps      map[int]map[string]bool // client -> jobs reported when its HTTP list request arrived
 	snapAtSave   map[int]*Snap       // handed-save index -> API snapshot at the instant the snapshot was built
 	lastChangeAt time.Duration       // fake time of the last step that changed the reported state
 	liveExec      map[string]int     // job -> scheduler runs begun and not yet completed
@@ -440,6 +441,30 @@ func (m *monState) checkProbe(si *StepInfo, res *OpResult) {
 	if res.List[0].Schedulable != accepted {
 		m.run.violate("C15", "r1", "step %d: pipeline %s was listed schedulable=%v and the schedule request issued immediately afterwards was accepted=%v (%s)", si.N, res.Op.Pipeline, res.List[0].Schedulable, accepted, res.Err)
 	}
+}
+
+func sortedNameSet(m map[string]bool) []string {
+	var ks []string
+	for k := range m {
+		ks = append(ks, k)
+	}
+	sort.Strings(ks)
+	return ks
+}
+
+// onListOpStart remembers which jobs are reported when an HTTP list request arrives.
+func (m *monState) onListOpStart(client int) {
+	if m.run.pre == nil {
+		return
+	}
+	if m.listOps == nil {
+		m.listOps = map[int]map[string]bool{}
+	}
+	names := map[string]bool{}
+	for n := range m.run.pre.Jobs {
+		names[n] = true
+	}
+	m.listOps[client] = names
 }
 
 func brief(j *JobSnap) string {
@@ -866,9 +891,33 @@ func (m *monState) checkList(si *StepInfo, res *OpResult, pre, post *Snap) {
 			run.violate("C15", "r3", "step %d: /pipelines/jobs body does not parse: %v", si.N, err)
 			return
 		}
-		if len(body.Jobs) != len(pre.Jobs) {
-			run.violate("C15", "r3", "step %d: /pipelines/jobs lists %d jobs, the runner has %d", si.N, len(body.Jobs), len(pre.Jobs))
+		// The handler may take its snapshot of the jobs at any instant between the arrival of the request and its
+		// answer (today: in the last step; a version that gathers the two parts concurrently: earlier). Demanded is
+		// what holds for every such instant: every job reported when the request arrived and still reported when it
+		// is answered is listed, nothing is listed twice, and nothing is listed that was never accepted.
+		listed := map[string]bool{}
+		for _, bj := range body.Jobs {
+			name := bj.ID
+			if id, err := uuidFromString(bj.ID); err == nil {
+				name = jobName(id)
+			}
+			if listed[name] {
+				run.violate("C15", "r3", "step %d: /pipelines/jobs lists job %s twice", si.N, name)
+			}
+			listed[name] = true
+			if m.acc[name] == nil && post.Jobs[name] == nil && pre.Jobs[name] == nil {
+				run.violate("C15", "r3", "step %d: /pipelines/jobs lists job %s, which was never accepted", si.N, name)
+			}
 		}
+		if atStart := m.listOps[res.Client]; atStart != nil {
+			for _, name := range sortedNameSet(atStart) {
+				if post.Jobs[name] != nil && pre.Jobs[name] != nil && !listed[name] {
+					run.violate("C15", "r3", "step %d: /pipelines/jobs does not list job %s, which was reported before the request arrived and still is", si.N, name)
+					break
+				}
+			}
+		}
+		delete(m.listOps, res.Client)
 		for i := 1; i < len(body.Jobs); i++ {
 			if body.Jobs[i].Created.After(body.Jobs[i-1].Created) {
 				run.violate("C15", "r3o", "step %d: /pipelines/jobs is not ordered newest first at position %d", si.N, i)
